@@ -31,16 +31,18 @@ SENDERS = [A("s", ["ok", "test"]), A("bad", ["bmf", "test"]), A("x", ["bmfdom", 
 RCPTS = [A("r", ["rh", "test"]), A("r", ["sub", "dot", "test"]), A("r", ["dot", "test"]), A("r", ["more", "test"]), A("r", ["x", "moredot", "test"]),
          A("r", ["other", "test"]), A("r", ["x", "rh", "test"]), A("r", [], noat=1), A("r", [], lit=1), A("r", ["rh", "test"], long=1),
          A("r", ["moredot", "test"]), A("q", ["rh", "test"]), A("r@rh.test", ["other", "test"]), A("r@other.test", ["rh", "test"]),
-         A("r", [], lit=1, edge=1)]
-BASE = {"rh": 1, "exact": [["rh", "test"], ["lip", "test"]], "suffix": [["dot", "test"]], "mexact": [["more", "test"]], "msuffix": [["moredot", "test"]],
-        "bmfaddr": [{"loc": "bad", "dom": ["bmf", "test"]}], "bmfdom": [["bmfdom", "test"]], "lip": ["test", "example"], "relay": "unset"}
+         A("r", [], lit=1, edge=1),
+         A("r", ["abcdefghijklm", "nopqrstuvwxyz", "test"])]      # every letter once: matching ignores case for each of them
+BASE = {"rh": 1, "exact": [["rh", "test"], ["lip", "test"], ["abcdefghijklm", "nopqrstuvwxyz", "test"]], "suffix": [["dot", "test"]], "mexact": [["more", "test"]], "msuffix": [["moredot", "test"]],
+        "bmfaddr": [{"loc": "bad", "dom": ["bmf", "test"]}], "bmfdom": [["bmfdom", "test"]], "lip": ["test", "example"], "relay": "unset", "mrhbad": 0}
+# mrhbad: control/morercpthosts.cdb exists but cannot be read properly (1 = zero length, 2 = cut to 1024 bytes): nothing is listed in it
 # lip: control/localiphost; when the file is absent the name defaults to control/me (test.example in the sandbox)
 
 
 def configs():
     out = [dict(BASE)]
     for ch in ({"rh": 0}, {"lip": ["lip", "test"]}, {"lip": ["notlisted", "test"]}, {"relay": "empty"}, {"relay": "suffix"},
-               {"mexact": [], "msuffix": [], "bmfaddr": [], "bmfdom": []}, {"exact": [], "suffix": []}):
+               {"mexact": [], "msuffix": [], "bmfaddr": [], "bmfdom": []}, {"exact": [], "suffix": []}, {"mrhbad": 1}, {"mrhbad": 2}):
         c = dict(BASE)
         c.update(ch)
         out.append(c)
@@ -69,6 +71,9 @@ def write_config(tree, cfg, rng):
         r = run([tree.bin("qmail-newmrh")], cwd=tree.root)
         if r.returncode != 0:
             raise Infra("qmail-newmrh failed: %s" % r.stdout.decode(errors="replace"))
+        if cfg.get("mrhbad"):
+            with open(os.path.join(ctl, "morercpthosts.cdb"), "r+b") as f:
+                f.truncate(0 if cfg["mrhbad"] == 1 else 1024)
     if cfg["bmfaddr"] or cfg["bmfdom"]:
         with open(os.path.join(ctl, "badmailfrom"), "w") as f:
             for a in cfg["bmfaddr"]:
